@@ -57,6 +57,8 @@ type viol struct {
 	Args  int    `json:"args,omitempty"`
 	Ref   string `json:"ref,omitempty"` // hex of the module the input must behave like
 	Rej   bool   `json:"reject,omitempty"` // the input carries the must-be-rejected requirement
+	ExpF  bool   `json:"expectf,omitempty"` // f() must return ExpV
+	ExpV  uint32 `json:"expectv,omitempty"`
 }
 
 type sample struct {
@@ -280,7 +282,7 @@ func (c *childState) addViol(res *chunkRes, sig, what string, in input, f int) {
 	if f >= 0 {
 		fsn = featureSets[f].Name
 	}
-	res.Viol = append(res.Viol, viol{Sig: sig, What: what, Tag: in.Tag, Hex: hex.EncodeToString(in.B), FS: fsn, Valid: in.Valid, Req: uint64(in.Req), Args: in.ArgSets, Ref: hex.EncodeToString(in.Ref), Rej: in.Reject})
+	res.Viol = append(res.Viol, viol{Sig: sig, What: what, Tag: in.Tag, Hex: hex.EncodeToString(in.B), FS: fsn, Valid: in.Valid, Req: uint64(in.Req), Args: in.ArgSets, Ref: hex.EncodeToString(in.Ref), Rej: in.Reject, ExpF: in.ExpectF, ExpV: in.ExpectV})
 }
 
 func outcomeSample(res *chunkRes, in input, outcome string) {
@@ -388,6 +390,11 @@ func validClass(tag string) string {
 	}
 	if strings.HasPrefix(tag, "family:E:") {
 		return "family:E"
+	}
+	if strings.HasPrefix(tag, "family:deadimm:") {
+		if i := strings.IndexByte(tag, '='); i > 0 {
+			return tag[:i]
+		}
 	}
 	if strings.HasPrefix(tag, "family:dead:") {
 		return "family:dead-code"
@@ -553,6 +560,28 @@ func (c *childState) executeOne(ci int, es *evalState, skipX map[int]bool, res *
 	if ts[0].Skipped != "" || ts[1].Skipped != "" {
 		res.Outcomes["exec:skipped:"+ts[0].Skipped+ts[1].Skipped]++
 		return
+	}
+	if in.ExpectF {
+		// the generator knows what f() returns
+		res.Outcomes["expected-result-compared"]++
+		for e := 0; e < 2; e++ {
+			got := "f was not called"
+			for _, it := range ts[e].Items {
+				if it.Label == `call:"f"#0` {
+					got = it.Class
+					if it.Class == "ok" && len(it.Vals) == 1 {
+						if uint32(it.Vals[0]) == in.ExpectV {
+							got = ""
+						} else {
+							got = fmt.Sprintf("returned %d", uint32(it.Vals[0]))
+						}
+					}
+				}
+			}
+			if got != "" {
+				c.addViol(res, "wrong-result:"+engName[e]+":"+validClass(in.Tag), fmt.Sprintf("f() of a by-construction-valid module must return %d, %s: %s (%s)", in.ExpectV, engName[e], got, featureSets[f].Name), in, f)
+			}
+		}
 	}
 	if ref := c.refTranscript(ci, es.k, in.Ref, f); ref != nil {
 		// a legal over-long re-encoding of one field must not change what the module does
@@ -870,7 +899,7 @@ func main() {
 		}
 	}
 	for _, v := range viols {
-		run.Violation(v.Sig, v.What+" [input "+v.Tag+"]", map[string]any{"hex": v.Hex, "fs": v.FS, "tag": v.Tag, "valid": v.Valid, "req": v.Req, "argsets": v.Args, "ref": v.Ref, "reject": v.Rej})
+		run.Violation(v.Sig, v.What+" [input "+v.Tag+"]", map[string]any{"hex": v.Hex, "fs": v.FS, "tag": v.Tag, "valid": v.Valid, "req": v.Req, "argsets": v.Args, "ref": v.Ref, "reject": v.Rej, "expectf": v.ExpF, "expectv": v.ExpV})
 	}
 
 	os.RemoveAll(dir) // run.Finish exits the process: deferred clean-up would not run
@@ -950,7 +979,7 @@ func loadKnown() func(sig string) bool {
 // shows up again (as a reported violation or as a process death).
 func reproduces(dir string, v viol) bool {
 	hf := dir + "/confirm.json"
-	js, _ := json.Marshal([]map[string]any{{"hex": v.Hex, "tag": v.Tag, "valid": v.Valid, "req": v.Req, "argsets": v.Args, "ref": v.Ref, "reject": v.Rej}})
+	js, _ := json.Marshal([]map[string]any{{"hex": v.Hex, "tag": v.Tag, "valid": v.Valid, "req": v.Req, "argsets": v.Args, "ref": v.Ref, "reject": v.Rej, "expectf": v.ExpF, "expectv": v.ExpV}})
 	os.WriteFile(hf, js, 0o600)
 	sub := dir + "/confirm"
 	os.MkdirAll(sub, 0o700)
@@ -1054,6 +1083,8 @@ func replayMain(file string) {
 			Hex, FS, Tag string
 			Ref          string
 			Reject       bool
+			ExpectF      bool
+			ExpectV      uint32
 			Valid        bool
 			Req          uint64
 			ArgSets      int
@@ -1065,7 +1096,7 @@ func replayMain(file string) {
 	dir, _ := os.MkdirTemp("", "c03-replay-")
 	defer os.RemoveAll(dir)
 	hf := dir + "/in.json"
-	js, _ := json.Marshal([]map[string]any{{"hex": art.Replay.Hex, "tag": art.Replay.Tag, "valid": art.Replay.Valid, "req": art.Replay.Req, "argsets": art.Replay.ArgSets, "ref": art.Replay.Ref, "reject": art.Replay.Reject}})
+	js, _ := json.Marshal([]map[string]any{{"hex": art.Replay.Hex, "tag": art.Replay.Tag, "valid": art.Replay.Valid, "req": art.Replay.Req, "argsets": art.Replay.ArgSets, "ref": art.Replay.Ref, "reject": art.Replay.Reject, "expectf": art.Replay.ExpectF, "expectv": art.Replay.ExpectV}})
 	os.WriteFile(hf, js, 0o600)
 	fmt.Printf("replaying %s\n  input (%d bytes): %s\n  recorded: %s\n", art.Signature, len(art.Replay.Hex)/2, art.Replay.Hex, art.What)
 	failed := false
